@@ -49,13 +49,42 @@ def make_ctx(tier):
 def run(ctx, tier):
     for r, t in (("T1", "shortcut byte classes are subsets of what the slow path leaves unchanged"),
                  ("T2", "hostname shortcut excludes IPv4-shaped hosts"), ("T3", "component slots"),
-                 ("T4", "protocol canonicaliser byte classes")):
+                 ("T4", "protocol canonicaliser byte classes"),
+                 ("T5", "each URLPattern canonicaliser scans and encodes with the one percent-encode set of its component")):
         ctx.rule(r, t)
     cfgs = C.configs_for(tier, thorough=["release", "devchecks", "amalgamated"])
     fxs = C.load_configs(ctx, cfgs)
     for name in cfgs:
         ctx.set_config(name)
         check(ctx, fxs[name])
+        check_canonicaliser_sets(ctx, fxs[name])
+
+
+def check_canonicaliser_sets(ctx, fx):
+    """T5 (same table as C11.R3).  A canonicaliser that scans for the first byte to encode with one set and encodes with
+    another leaves bytes of the second set unencoded in front of the first hit."""
+    from rules import c11
+    n = 0
+    for f in fx.functions:
+        if not (C.first_party(f) and f["qname"].startswith("ada::url_pattern_helpers::canonicalize_")):
+            continue
+        refs = []
+        for nd, st, b in C.all_nodes(f):
+            if nd.get("k") == "ref" and nd.get("kind") == "global" and nd.get("qname", "").endswith("_PERCENT_ENCODE"):
+                refs.append((c11.REPO_SETS.get(nd["qname"].split("::")[-1]), st.get("loc", "")))
+        if not refs:
+            continue
+        n += 1
+        allowed = c11.COMPONENT_SETS.get(f["qname"])
+        if allowed is None:
+            ctx.broken("T5: %s refers to a percent-encode set but is not in the component map (rules/c11.py COMPONENT_SETS)" % f["qname"])
+        used = sorted({r for r, l in refs})
+        ctx.check("T5", "%s uses only %s" % (f["qname"].split("::")[-1], "/".join(sorted(allowed))), set(used) <= allowed and len(used) == 1,
+                  ", ".join(used),
+                  "%s refers to the sets %s; the component's canonical form is defined with %s alone, so a byte that is in that set but "
+                  "not in the other one is scanned over or left unencoded" % (f["qname"], used, sorted(allowed)),
+                  where=[l for r, l in refs if r not in allowed][0].replace("/repo/", "") if any(r not in allowed for r, l in refs) else f["loc"].replace("/repo/", ""))
+    ctx.floor("T5", n, 4, "URLPattern canonicalisers that percent-encode")
 
 
 def simple_set(fx, f, sem):
